@@ -73,7 +73,7 @@ def _dc(V, spec_id, group):
         V.cover('capped')
 
 
-C10_SPECS = {'basic': ['plain', 'addition', 'alias'], 'onerr': ['plain', 'policy'], 'mix': ['plain', 'addition'],
+C10_SPECS = {'basic': ['plain', 'addition', 'alias', 'params'], 'onerr': ['plain', 'policy'], 'mix': ['plain', 'addition'],
              'deps': ['plain'], 'alias': ['plain', 'alias'], 'mode': ['mode']}
 for _spec, _groups in C10_SPECS.items():
     for _g in GROUPS:
@@ -467,3 +467,40 @@ def computed_property(V):
         V.check(got is not None and None not in got and len(set(got)) == len(got) and set(got) <= {'prefix', 'number', 'code', 'half'},
                 'property:items', lambda: det() + ' ; collected items %r' % (got,))
         V.cover('reject')
+
+
+# ------------------------------------------------------------------ the cap on functions that collect extra keywords
+def _mk_kw(cap):
+    @utype.parse(options=Options(collect_errors=True, max_errors=cap))
+    def h(a: types.PositiveInt, b: types.PositiveInt = 1, *, c: types.PositiveInt = 2, **kw: types.PositiveInt):
+        return a, b, c, kw
+    return h
+
+
+H_COLL = {cap: _mk_kw(cap) for cap in (1, 2, 3)}
+
+
+@ob('function/var-kwargs-cap', marks=['reject'], budget=(60, 200),
+    bounds='@parse(options=Options(collect_errors=True, max_errors=cap)) def h(a, b=1, *, c=2, **kw: PositiveInt), cap in 1..3; a, b, c and '
+           'two extra keywords each valid (1) or invalid (0 / "x") by solver choice: the collected error holds min(cap, failing) entries, '
+           'each naming a failing item once')
+def function_var_kwargs_cap(V):
+    cap = V.pick('cap', [1, 2, 3])
+    kwargs, failing = {}, set()
+    for name in ('a', 'b', 'c', 'p', 'q'):
+        k = V.pick(name + '_kind', ['good', 'zero', 'bad'])
+        kwargs[name] = {'good': 1, 'zero': 0, 'bad': 'x'}[k]
+        if k != 'good':
+            failing.add(name)
+    r = attempt(H_COLL[cap], **kwargs)
+    det = lambda: 'h(**%r) max_errors=%d -> %r %r ; failing %r' % (kwargs, cap, r[0], collected_items(r[1]) if r[0] != 'ok' else r[1], sorted(failing))
+    V.check(r[0] != 'crash', 'function:crash', det)
+    V.check((r[0] == 'ok') == (not failing), 'function:verdict-vs-params', det)
+    if r[0] == 'ok':
+        return
+    got = collected_items(r[1])
+    if got is not None:
+        got = [str(g).split(':')[-1] for g in got]      # (an extra keyword is reported as '**kw:<name>')
+    V.check(got is not None and len(got) == min(cap, len(failing)) and set(got) <= failing and len(set(got)) == len(got),
+            'function:capped-items:var-kwargs', det)
+    V.cover('reject')
